@@ -248,8 +248,12 @@ impl FileReader for IOFileReader {
                     .ok()
                     .ok_or(FileReaderError::InvalidPath)?;
                 let parent = parent.parent().ok_or(FileReaderError::InvalidPath)?;
-                parent
-                    .join(path)
+                // One name per file (a/../a/x.s is a/x.s), so that an include cycle can be
+                // recognised; a file that does not exist keeps the name it was asked for
+                let joined = parent.join(path);
+                joined
+                    .canonicalize()
+                    .unwrap_or(joined)
                     .to_str()
                     .ok_or(FileReaderError::InvalidPath)?
                     .to_owned()
